@@ -143,6 +143,10 @@ def interactive_cases(fam, allm, every_value=False):
                 yield {m: [v]}, "answer %s at %s" % (v, m)
 
 
+# a line of the report (a score with its label), whatever the label's exact wording
+REPORT_LINE = re.compile(r"(?i)^[^:]*\b(base|temporal|environmental)\b[^:]*:\s*\d+(\.\d+)?\b")
+
+
 class CountingStdin(dialogue.ReactiveStdin):
     """Answers default values until `limit` questions were answered, then end of input."""
 
@@ -167,9 +171,10 @@ def judge_interactive(vflag, oflags, script):
         bad = cli.basic(res)
         if bad:
             return bad, res
-        for marker in ("Cleaned vector", "Red Hat vector", "Base Score"):
-            if script[1] < len(dialogue.expected_metrics(fam, allm)) and marker in res["out"].split("\n")[-4:]:
-                return "prints a report although the input ended early", res
+        if script[1] < len(dialogue.expected_metrics(fam, allm)):
+            for ln in res["out"].split("\n")[-4:]:
+                if REPORT_LINE.match(ln):
+                    return "prints a report although the input ended early", res
         return None, res
     stdin = dialogue.ReactiveStdin(fam, None, script, dflt)
     res = cli.run_main(vflag + oflags, stdin)
